@@ -758,6 +758,16 @@ def run(repo, rep):
     uni = unimod.Universe(repo)
     n1 = check_keyword_names(repo, rep, uni)
     n2, neff = check_declared_vs_effective(repo, rep, uni)
+    rep.rule('R12i', 'SPELLING-SITUATIONS: function / method kind '
+             'predicate, lazy keys by call keyword, and mapping of '
+             'positional, keyword and null-valued keyword arguments decided '
+             'by abstract evaluation of call / choose_overload / map_args / '
+             'get_delegate')
+    resmodel.report_situations(repo, rep, 'R12i', (
+        'kind-predicate', 'lazy-untouched', 'delegates-get-values',
+        'map-accepts-iff-wellformed', 'map-pairs-values-with-parameters',
+        'payload-gets-converted-slots'),
+        'two spellings of one call are treated differently')
     resmodel.guarded(repo, rep, 'R12c', check_kind_predicate, repo, rep)
     check_varkw_collisions(repo, rep, uni)
     check_clone_copies_parameters(repo, rep)
